@@ -750,7 +750,17 @@ def r5(ctx):
                       f"identity test `is {m.param}.{attr}` cannot recognise columns taken from the statement's candidate-row namespace",
                       f"{c.name}(self.{'/'.join(sorted(srcs))}, ...)", fi0.loc)
             if len(srcs) != 1:
-                continue
+                # fall back to the attribute behind the public namespace so that the remaining instances are still evaluated
+                alt = set()
+                for fi in ins.methods.values():
+                    for r in [x for x in walk_local(fi.node) if isinstance(x, ast.Return) and x.value is not None]:
+                        v = r.value
+                        if isinstance(v, ast.Attribute) and v.attr in ("columns", "c") and isinstance(v.value, ast.Attribute) \
+                                and isinstance(v.value.value, ast.Name) and v.value.value.id == "self":
+                            alt.add(v.value.attr)
+                if len(alt) != 1:
+                    continue
+                srcs = alt
             src = srcs.pop()
             prop = ins.methods.get(src)
             ctx.require(prop is not None, f"{ins.key}.{src} is not defined in the class")
